@@ -57,7 +57,11 @@ func (b *BFS) Explore() (states int, depthDone int) {
 				if det > 0 {
 					det--
 					r2 := b.Run(c)
-					if r2.DetKey != r.DetKey || (r.DetKey == "" && r2.Key != r.Key) || r2.Outcome != r.Outcome || (r2.Viol == "") != (r.Viol == "") {
+					// A run that ends in a violation is confirmed by the driver's replays instead:
+					// the implementation itself may be nondeterministic (map iteration order).
+					if r.Viol == "" && r2.Viol != "" {
+						r = r2
+					} else if r.Viol == "" && (r2.DetKey != r.DetKey || (r.DetKey == "" && r2.Key != r.Key) || r2.Outcome != r.Outcome) {
 						w.Harness(fmt.Sprintf("nondeterministic replay of %v: key %q vs %q, outcome %q vs %q, viol %q vs %q", c, r.Key, r2.Key, r.Outcome, r2.Outcome, r.Viol, r2.Viol))
 					}
 				}
